@@ -228,6 +228,29 @@ SMALL_OPTS = {"GaussianProcessSampler": {"candidate_pool_size": 30, "optimize_re
               "CORSSampler": {"max_samples": 12}}
 
 
+def random_opts(name, rng):
+    """random admissible constructor options of a built-in sampler (kept small enough to stay fast)"""
+    mdp = rng.choice([5, 5, 0, 1, 3])
+    if name in ("HaltonSampler", "RSequenceSampler", "RandomUniformSampler"):
+        return {"max_deduplication_passes": mdp}
+    if name == "BestBatchSampler":
+        return {"max_deduplication_passes": mdp, "a": rng.choice([3.0, 1.0, 0.5, 6.0]), "b": rng.choice([1.0, 2.0, 0.5]), "perturbation_range": rng.choice([6, 2, 3, 10, 40])}
+    if name == "GaussianProcessSampler":
+        return {"candidate_pool_size": rng.choice([20, 30, 45]), "optimize_restarts": 1, "acquisition": rng.choice(["expected_improvement", "mean"]), "jitter": rng.choice([0.1, 0.01, 1.0]),
+                "max_deduplication_passes": mdp}
+    if name == "RandomForestSampler":
+        return {"candidate_pool_size": rng.choice([20, 30, 45]), "n_estimators": rng.choice([3, 5, 10]), "criterion": rng.choice(["gini", "entropy"]), "n_classes": rng.choice([10, 3, 4]),
+                "max_deduplication_passes": mdp}
+    if name == "XGBoostSampler":
+        return {"candidate_pool_size": rng.choice([20, 30, 45]), "n_estimators": rng.choice([3, 5, 10]), "colsample_bytree": rng.choice([0.3, 1.0]), "learning_rate": rng.choice([0.1, 0.5]),
+                "max_depth": rng.choice([5, 2]), "alpha": rng.choice([1.0, 0.0]), "max_deduplication_passes": mdp}
+    if name == "ParticleSwarmSampler":
+        return {"inertia": rng.choice([0.9, 0.5, 1.0]), "c1": rng.choice([0.1, 1.5, 0.0]), "c2": rng.choice([0.1, 1.5, 0.0]), "global_minimum_across_samplers": rng.random() < 0.5}
+    if name == "CORSSampler":
+        return {"max_samples": rng.choice([12, 20, 40]), "rho0": rng.choice([0.5, 0.2, 1.0]), "p": rng.choice([1.0, 0.5, 2.0])}
+    return {}
+
+
 def build_samplers(lineup, next_obj):
     out = []
     for (ci, bs, script, cseed) in lineup:
